@@ -9,12 +9,20 @@ import (
 
 // runEvents returns the events logged before App.Run returned.
 func runEvents(o *Obs) []Ev {
-	if o.EndOfRun <= 0 {
-		return o.Events
-	}
 	var out []Ev
+	warm := false
 	for _, e := range o.Events {
-		if e.Seq < o.EndOfRun {
+		switch e.Kind {
+		case "warmup":
+			warm = true
+		case "warmup-done":
+			warm = false
+			continue
+		}
+		if warm {
+			continue // events of the warm-up container that reused the option values
+		}
+		if o.EndOfRun <= 0 || e.Seq < o.EndOfRun {
 			out = append(out, e)
 		}
 	}
@@ -194,6 +202,9 @@ func (w *World) CheckLifecycle(out *Outcome, o *Obs) []Violation {
 					vs = append(vs, v("C05", "processor-callbacks-not-exactly-once", i.ID, fmt.Sprintf("created component %s: processor %s saw %d before- and %d after-initialization callbacks", i.ID, pr.ID, len(l.before[pr.ID]), len(l.after[pr.ID]))))
 				}
 			}
+		} else if !t.Lazy && t.Role == "" && len(o.Faults) == 0 {
+			// an eager component must have been created by the time Run returns
+			vs = append(vs, v("C05", "eager-component-not-created", i.ID, fmt.Sprintf("component %s is not LazyInit but was not created (published) by the time Run returned successfully", i.ID)))
 		} else if len(l.init)+len(l.aps)+len(l.before)+len(l.after) != 0 && !t.Lazy {
 			// events without publication on a successful run
 			vs = append(vs, v("C05", "lifecycle-without-publication", i.ID, fmt.Sprintf("component %s has lifecycle events but was never published", i.ID)))
@@ -410,6 +421,13 @@ func (w *World) CheckOrdering(o *Obs) []Violation {
 		ls = nil
 	}
 	for _, e := range o.Events {
+		if e.Kind == "warmup" {
+			pass = "warm-up container's"
+		}
+		if e.Kind == "warmup-done" {
+			flush()
+			pass = "first"
+		}
 		if e.Kind == "reload" {
 			flush()
 			pass = "second"
@@ -464,6 +482,27 @@ func (w *World) CheckRunners(o *Obs) []Violation {
 			if e.Seq > first && (e.Kind == "init" || e.Kind == "aps" || e.Kind == "before" || e.Kind == "after") {
 				vs = append(vs, v("C13", "initialization-after-first-runner", e.Kind, fmt.Sprintf("%s(%s) at seq %d happened after the first runner was invoked (seq %d)", e.Kind, e.Subj, e.Seq, first)))
 				break
+			}
+		}
+	}
+	// every eager component has finished initialization before the first runner starts
+	if len(runs) != 0 && len(o.Faults) == 0 && !w.hasSubst() {
+		first := runs[0].Seq
+		initAt := map[string]int{}
+		for _, e := range evs {
+			if e.Kind == "init" && e.Detail == "" {
+				if _, ok := initAt[e.Subj]; !ok {
+					initAt[e.Subj] = e.Seq
+				}
+			}
+		}
+		for _, i := range w.P.Instances {
+			t := w.Types[i.Type]
+			if t.Lazy || !t.Init || t.Zero {
+				continue
+			}
+			if at, ok := initAt[i.ID]; !ok || at > first {
+				vs = append(vs, v("C13", "runner-started-before-eager-component-initialised", i.ID, fmt.Sprintf("eager component %s had not been initialised when the first runner %s was invoked (Init seq %d, first runner seq %d)", i.ID, runs[0].Subj, at, first)))
 			}
 		}
 	}
